@@ -104,7 +104,7 @@ def prog_of(c: dict) -> GProg:
             t = _get(c["tags"], j)
             kw["tag"] = tuple(t) if isinstance(t, list) else t
         nodes.append(GNode(**kw))
-    p = GProg(nodes=tuple(nodes), mc=c.get("mc", 1), is_async=c.get("is_async", False))
+    p = GProg(nodes=tuple(nodes), mc=c.get("mc", 1), is_async=c.get("is_async", False), decl=c.get("decl", "deco"))
     if c.get("falsy"):
         ids = p.ids()
         p = replace(p, falsy=frozenset((ids[i], tuple(path)) for i, path in c["falsy"]))
@@ -232,6 +232,14 @@ def cross_families(tier: str):
         for names in ("fwd", "rev"):
             for prio in ((0, 0, 0, 5, 2), (0, 1, 0, 4, 3), (0, 2, 0, 0, 1)):
                 yield dict(n=5, es=es, seq=(False,) * 5, prio=prio, res="ttttt", mc=1, is_async=False, ties=0, composed=True, names=names)
+    # (h) nodes declared with the call form of the decorator, function and options in one call: n = xn(f, priority=..., ...)
+    for n in (2, 3):
+        for es in shapes(n):
+            for seq in seq_menu(n)[1:]:
+                for res in ("t" * n, ("at" * n)[:n], ("mt" * n)[:n]):
+                    for prio in ((0,) * n, tuple(range(n))):
+                        for mc in (2, 3):
+                            yield dict(n=n, es=es, seq=seq, res=res, prio=prio, mc=mc, is_async=False, ties=0 if q else 1, decl="call")
     # (g) a dependency delivered through ONE tuple key, r["a", 1]
     for n in (2, 3):
         for es in shapes(n):
